@@ -170,6 +170,23 @@ def run(case):
                         if not frag_equal(F[name], F2[name], coarse):
                             viol.append(V('c08.frag_not_isomorphic', f'{s} written as {w}: fragment {name} reads back as {show(F2[name], coarse)}, original {show(F[name], coarse)}'))
                             break
+                if not viol and len(s) % 4 == 0:
+                    # second generation, with a caller that edits what it read: the set read back is written again, the
+                    # caller then empties the descriptor lists of ITS graphs (say, to cap the chain ends), and the written
+                    # text is read once more: it must still say what was written
+                    import copy
+                    w2 = write_cgsmiles_fragments(F2, smiles_format=not coarse)
+                    kept = copy.deepcopy(F2)
+                    for g_ in list(F2.values()) + list(F.values()):
+                        for _, d_ in g_.nodes(data=True):
+                            if isinstance(d_.get('bonding'), list):
+                                d_['bonding'].clear()
+                    F3 = cgsmiles.read_fragments(w2, all_atom=not coarse)
+                    for name in kept:
+                        if name not in F3 or not frag_equal(kept[name], F3[name], coarse):
+                            viol.append(V('c08.frag_not_isomorphic', f'{s} written as {w}, read, written again as {w2} and read after the caller had emptied the descriptor lists of its own '
+                                          f'graphs: fragment {name} reads back as {show(F3[name], coarse) if name in F3 else None}, written was {show(kept[name], coarse)}'))
+                            break
             except Exception as err:
                 viol.append(V('c08.frag_exception.' + type(err).__name__, f'{s} (written: {w}) raised {type(err).__name__}: {err}'))
     else:
